@@ -565,7 +565,7 @@ def boundary_grid_stage(res, tier):
     import coqeval
     texts = ['', 'a', 'ab c', '\u00e9', 'a\u00e9b', '\u65e5\u672c', 'x\U0001F600y', '\u00e9\u65e5\U0001F600', 'abcdefgh\u00e9', '\U0001F600']
     cases = []
-    for kind in ('s', 'b'):
+    for kind in ('s', 'b', 'w'):
         for t in texts:
             data = t.encode('utf8')
             idxs = list(range(0, len(data) + 4)) + [U64 - 1, U64 - 2, 1 << 63, (1 << 63) + 1, 1 << 32]
@@ -583,8 +583,8 @@ def boundary_grid_stage(res, tier):
     exprs = []
     for k, d, idx in cases:
         w = coqeval.nlist(d)
-        fb = ('fb_str %s %d' % (w, idx)) if k == 's' else str(idx)
-        exprs.append('[(if Source.is_boundary %s %s %d then 1 else 0); %s]' % ('true' if k == 's' else 'false', w, idx, fb if idx <= len(d) else '0'))
+        fb = ('fb_str %s %d' % (w, idx)) if k in 'sw' else str(idx)
+        exprs.append('[(if Source.is_boundary %s %s %d then 1 else 0); %s]' % ('true' if k in 'sw' else 'false', w, idx, fb if idx <= len(d) else '0'))
     model = coqeval.coq_eval(exprs, 'From LogosV Require Import Runtime.Source Engine.Run.', 'bgrid')
     nbad = 0
     for b, exe in exes.items():
@@ -596,7 +596,7 @@ def boundary_grid_stage(res, tier):
             if got != exp:
                 nbad += 1
                 if nbad <= 4:
-                    res.violation(None, 'Source::is_boundary / find_boundary (%s/%s) on the %s source %r at index %d: got `%s`, specification `%s` (is_boundary, find_boundary)' % (b[0], b[1], 'str' if k == 's' else '[u8]', d, idx, got, exp),
+                    res.violation(None, 'Source::is_boundary / find_boundary (%s/%s) on the %s source %r at index %d: got `%s`, specification `%s` (is_boundary, find_boundary)' % (b[0], b[1], {'s': 'str', 'w': 'String (Deref blanket impl)'}.get(k, '[u8]'), d, idx, got, exp),
                                   dict(featureset=b[0], profile=b[1], kind=k, source_hex=d.hex(), index=idx, observed=got, expected=exp))
     res.oblige(nbad == 0)
 
@@ -1098,6 +1098,9 @@ def check_C05(tier):
     res.trusted += ['Coq kernel + vm_compute (model evaluation in coqc)', 'harness read mode']
     res.assumptions += ['machine-level memory safety of unsafe pointer reads is modelled as index bounds; no sanitizer result is claimed (partial)',
                         'inputs are exact-size heap allocations (Box<[u8]>) in the harness']
+    # K6b: find_boundary / is_boundary of str, [u8] and of a str reached through the Deref blanket impl (String): a span end
+    # that is not a boundary makes slice() / remainder() cut inside a code point (get_unchecked in the default build)
+    boundary_grid_stage(res, tier)
     # K13 guarded placement: the source sits in the middle of a larger buffer filled with 0x80 / 0xBF / 'a' / 0 / 0xE2;
     # the items must not depend on the fill byte (a dependence means bytes outside the source were read) and must equal
     # the items of the exact-size run
@@ -1266,6 +1269,28 @@ def check_C13(tier):
                     res.violation(None, '%s leaf %d (%s): the attribute %s a callback, the leaf the derive built %s' % (c.id, l['idx'], l['src'], 'declares' if int(a['cb']) else 'declares no', 'has one' if int(l['cb']) else 'has none'),
                                   dict(definition=c.source, definition_id=c.id, leaf=l['idx']))
     res.oblige(ncb == 0)
+    # inline closures: the body that reaches the generated code is the body as written (everything after `|arg|`;
+    # one braced block stands for its statements) - scanned independently and looked up in the emitted dispatch
+    nbody = 0
+    inl_files = build.repo_corpus_files() + front_files() + [os.path.join(VERIF, 'corpus', 'engine', f) for f in sorted(os.listdir(os.path.join(VERIF, 'corpus', 'engine'))) if f.endswith('.rs')]
+    for c in build.capture_files(inl_files, 'c13-inline', gen=True):
+        if c.panic is not None or not c.accepted or len(c.attrs) != len(c.leaves) or not os.path.exists(c.gen_path):
+            continue
+        gen = None
+        for l in c.leaves:
+            a = c.attrs[l['idx']]
+            if 'cbbody' not in a:
+                continue
+            if gen is None:
+                gen = open(c.gen_path).read().replace(' ', '').replace('\n', '')
+            body = capmod.unhex(a['cbbody']).decode('utf8', 'replace')
+            res.count('inline_closure_bodies_checked')
+            if ('=lex;' + body + '}') not in gen:
+                nbody += 1
+                if nbody <= 4:
+                    res.violation(None, '%s leaf %d (%s): the inline callback is written with the body `%s`, which is not the body of the callback in the generated code' % (c.id, l['idx'], l['src'], body),
+                                  dict(definition=c.source, definition_id=c.id, leaf=l['idx'], expected_body=body))
+    res.oblige(nbody == 0)
     rng = random.Random(seed() + 13)
     label, h, enums = sets[0]
     exe0, caps0 = h['tc']
@@ -1537,6 +1562,8 @@ def check_C12(tier):
                 if nbad <= 5:
                     res.violation(None, '%s on %r: %s' % (a, p, bad), dict(definition=ce.enum_source(enums, a), input_hex=p.hex(), input=repr(p), str_mode=rs['raw'][:300], byte_mode=rb['raw'][:300]))
     res.oblige(nbad == 0)
+    # the two source kinds agree with the model on what a boundary is (Lexer::bump relies on it in both modes): K6b
+    boundary_grid_stage(res, tier)
     res.cov['rule'] = ('every dual definition compiled in str mode and with utf8 = false: captured graphs equal; both run on every valid-UTF-8 probe: same Ok tokens and spans, same set of bytes covered by errors; '
                        'UTF-8 certificates incl. strictness on every accepted str-mode definition; acceptance pairs for patterns matching invalid UTF-8')
     res.assumptions += ASSUME_ENGINE + ['stream-level agreement is C12_streams_agree (model); the compiled twins are compared on the probes (K2)']
@@ -1579,6 +1606,8 @@ def independent_prios(c, coq_defaults=None):
         ex = a.get('prio', '-')
         if ex.isdigit():
             out.append(int(ex))
+        elif ex != '-' and c.accepted and 'prioval' in a:
+            out.append(int(a['prioval']))     # an accepted non-plain literal means the value Rust gives it
         elif a.get('kind') == 'token' and a.get('lit') is not None:
             out.append(2 * (0 if a['lit'] == '-' else len(a['lit']) // 2))
         elif coq_defaults is not None and (id(c), l['idx']) in coq_defaults:
@@ -1748,6 +1777,8 @@ def check_C09(tier):
             a = c.attrs[l['idx']]
             if a.get('kind') == ('token' if l['lit'] else a.get('kind')) and 'lit' in a:
                 explicit = a.get('prio', '-')
+                if not explicit.isdigit() and explicit != '-' and c.accepted and 'prioval' in a:
+                    explicit = a['prioval']
                 litlen = 0 if a['lit'] == '-' else len(a['lit']) // 2
                 expected = int(explicit) if explicit.isdigit() else (2 * litlen if a['kind'] == 'token' else v[0])
                 res.count('leaf_priorities_checked_against_attribute')
@@ -2826,11 +2857,12 @@ def check_C16(tier):
     nthreads = 4 if tier == 'quick' else 12
     digests = {}
     nondet = []
-    for sm in (False, True):
-        tool = build.capture_tool(sm)
+    # the derive built in the dev profile (both generators) and in the release profile (no debug assertions)
+    for sm, rel in ((False, False), (True, False), (False, True)):
+        tool = build.capture_tool(sm, release=rel)
         outs = []
-        for k in range(nproc):
-            out = cache_dir('c16', 'run-%s-%d' % ('sm' if sm else 'tc', k))
+        for k in range(nproc if not rel else 2):
+            out = cache_dir('c16', 'run-%s%s-%d' % ('sm' if sm else 'tc', '-rel' if rel else '', k))
             for f in _glob.glob(os.path.join(out, '*')):
                 os.remove(f)
             sh([tool, 'defs', out, '--list', lst], env=dict(ENV, VERIF_WRITE_GEN='1', VERIF_REPEAT=str(nthreads)))
@@ -2857,10 +2889,10 @@ def check_C16(tier):
                     break
             res.count('generate_calls', nproc * (1 + nthreads))
             if bad:
-                nondet.append((nm, sm, bad, c0))
+                nondet.append((nm, ('sm' if sm else 'tc') + ('/release' if rel else ''), bad, c0))
     res.oblige(not nondet)
     for nm, sm, bad, c0 in nondet[:6]:
-        res.violation(None, '%s (%s generator): %s' % (nm[:-4], 'state-machine' if sm else 'tail-call', bad), dict(definition=c0.source, file=c0.file, generator='sm' if sm else 'tc'))
+        res.violation(None, '%s (%s build of the derive): %s' % (nm[:-4], sm, bad), dict(definition=c0.source, file=c0.file, generator=sm))
     # logos-cli: two runs byte-identical, then --check accepts its own output
     cli = build_cli()
     work = cache_dir('c16', 'cli')
@@ -2934,11 +2966,12 @@ def check_C14(tier):
                 if r < 0.45: ops.append(('n', 0))
                 elif r < 0.55: ops.append(('p', 0))
                 elif r < 0.7: ops.append(('b', rng.randint(0, 3)))
-                elif r < 0.8: ops.append(('c', 0))
+                elif r < 0.75: ops.append(('c', 0))
+                elif r < 0.8: ops.append(('f', 0))
                 elif r < 0.9: ops.append(('s', rng.randint(0, 5)))
                 else: ops.append(('m', 0))
             hid = 'h%d_%d' % (pi, k)
-            code = {'n': 0, 'b': 1, 'c': 2, 's': 3, 'm': 4, 'p': 5}
+            code = {'n': 0, 'b': 1, 'c': 2, 's': 3, 'm': 4, 'p': 5, 'f': 2}     # clone_from must be a clone
             job.append('H %s %d %d %s %d %s' % (hid, partial, len(w), ' '.join(map(str, w)), len(ops), ' '.join('%d %d' % (code[o], x) for o, x in ops)))
             lines.append('H %s %s+%s %d %s %s' % (hid, a, b, partial, w.hex() or '-', ' '.join('%s%d' % (o, x) if o in 'bs' else o for o, x in ops)))
             meta[hid] = (a, b, w, partial, ops)
@@ -2974,7 +3007,7 @@ def check_C14(tier):
                         nops_total += 1
                         f = part.split(':')
                         flag = f[3].endswith('!'); rs, re_ = int(f[2]), int(f[3].rstrip('!'))
-                        if o == 'c': pool.append(pool[cur]); cur = len(pool) - 1; clones += 1
+                        if o in 'cf': pool.append(pool[cur]); cur = len(pool) - 1; clones += 1
                         elif o == 's': cur = x % len(pool)
                         elif o == 'm': pool[cur] = 1 - pool[cur]; morphs += 1
                         cdef = caps0[a] if pool[cur] == 0 else caps0[b]
